@@ -49,9 +49,12 @@ def plan(tier, seed):
                           steps=2000 if tier == 'thorough' else 350,
                           auto=(k % 4 == 3), dynamic=(k % 4 in (1, 3)),
                           hashseed=k))
+    # instances beyond truth tables (12-70 variables), see vf/big.py
+    from vf import big
+    specs.extend(big.specs(tier, seed, 'C01'))
     meta = dict(
         rule=RULE,
-        require=['binary_results', 'ite_results', 'function_op_results',
+        require=['big_histories', 'binary_results', 'ite_results', 'function_op_results',
                  'history_results', 'steps', 'cache_entries_checked',
                  'dynamic_histories'],
         assumptions=[
@@ -399,6 +402,9 @@ def _random_history(ctx, spec, rng, names, kind, reg, dynamic):
 
 
 def run_shard(ctx, spec):
+    if spec['kind'] == 'big':
+        from vf import big
+        return ctx.guard('big', big.run, ctx, spec, case=spec)
     ctx.guard(spec['kind'], _run_shard, ctx, spec, case=spec)
 
 
